@@ -37,7 +37,7 @@
 From Coq Require Import List NArith.
 From ApiFu Require Import Base.Sexp Vld.Ast Vld.Inspect Vld.TypeInfoModel Vld.TypeInfoPure Vld.ValidatorModel Vld.ValidSpec
      Vld.Hyps Vld.ProofsCommon Vld.ProofsDirectives Vld.ProofsArguments Vld.ProofsFragDecl Vld.ProofsValues
-     Vld.ProofsCycles Vld.ProofsVarsOrder Vld.ProofsOrder Vld.ProofsOperations Vld.ProofsTotal Vld.Enumerate Vld.ProofsFields Vld.ValidatorProofs Vld.Witness.
+     Vld.ProofsCycles Vld.ProofsVarsOrder Vld.ProofsOrder Vld.ProofsOperations Vld.ProofsTotal Vld.Enumerate Vld.ProofsFields Vld.ProofsMemo Vld.ValidatorProofs Vld.ProofsSpreads Vld.Witness.
 Import ListNotations.
 
 (** ** determinism: acceptance is a function of schema, features and document alone *)
@@ -61,6 +61,21 @@ Theorem C04_verdict_deterministic : forall pi1 pi2 S F D,
   (validate_model repaired pi1 S F D = Done [] /\ validate_model repaired pi2 S F D = Done []) \/
   (exists e1 l1 e2 l2, validate_model repaired pi1 S F D = Done (e1 :: l1) /\ validate_model repaired pi2 S F D = Done (e2 :: l2)).
 Proof. exact validate_verdict_order. Qed.
+
+(** ** the checked-pairs memo of the overlapping-fields pass (repair 92e8fdd)
+    [validate_model_memo] is ValidateDocument as it is on the current tree; [validate_model] is the
+    same pipeline with the overlapping-fields pass without the two sets of checked pairs (the
+    algorithm the other theorems of this file speak about).  Proved: the memoised validator is
+    total, and it accepts whatever the plain one accepts (every check it makes, the plain one makes
+    too).  NOT proved: the converse (the memo never hides a conflict) — it needs the acyclicity of
+    the fragment graph that the spread rule establishes; the check compares the two on every case
+    (mismatch memo-changes-model-verdict). *)
+Theorem C04_validate_memo_no_panic : forall pi S F D,
+  order_ok pi -> exists errs, validate_model_memo repaired pi S F D = Done errs.
+Proof. exact validate_memo_no_panic. Qed.
+Theorem C04_memo_accepts_what_plain_accepts_partial : forall q pi S F D,
+  validate_model q pi S F D = Done [] -> validate_model_memo q pi S F D = Done [].
+Proof. exact validate_memo_accepts. Qed.
 
 (** ** the pipeline *)
 (** NewTypeInfo never indexes an empty scope stack *)
@@ -192,6 +207,20 @@ Theorem C04_fields_pass_errors : forall S F qo D,
                               (ssels_ss S F (model_def_scope S F d) (def_sub d))) D.
 Proof. exact fields_pass_errors. Qed.
 
+(** 5.5.2.1 (spread targets are defined) holds of every accepted document; the errors of the visitor
+    of validateFragmentSpreads, exactly, one batch per spread / typed inline fragment, computed from
+    the parent type TypeInfo recorded ([sp_ev1]) — the basis for 5.5.2.3 *)
+Theorem C04_accepted_spread_targets_defined : forall pi S F D,
+  order_ok pi -> validate_model repaired pi S F D = Done [] -> valid_5_5_2_1 D = true.
+Proof. exact accepted_spread_targets_defined. Qed.
+Theorem C04_spreads_pass_errors : forall pi S F D st,
+  r_stack st = [] ->
+  r_errs (inspect (spreads_enter repaired pi S F (pti_doc (q_unwrap_obj repaired) S F D)) pop (tree_doc (pti_doc (q_unwrap_obj repaired) S F D)) st) =
+  r_errs st ++
+  flat_map (fun d => flat_map (fun o => sp_ev1 pi S F (pti_doc (q_unwrap_obj repaired) S F D) (fst o) (pti_sel (q_unwrap_obj repaired) S F (fst o) (snd o)))
+                              (ssels_ss S F (model_def_scope S F d) (def_sub d))) D.
+Proof. exact spreads_pass_errors. Qed.
+
 (** a violation of one of these sections -> rejected *)
 Theorem C04_violation_rejected_partial : forall pi S F D,
   order_ok pi ->
@@ -215,9 +244,17 @@ Theorem C04_refuted_before_fix_nil_argument :
   exists q S F D, q_nil_arg q = false /\ validate_model q id_order S F D = Panic PNilArgument.
 Proof. exact panic_before_fix_4. Qed.
 
+(** row 30 (validator half): a spread possible only through an implementation the request cannot see *)
+Theorem C04_refuted_before_fix_impl_features :
+  exists q S F D, q_impl_features q = false /\ valid_5_5_2_3 S F D = false /\ validate_model q id_order S F D = Done [].
+Proof. exact accepted_violation_before_fix_30. Qed.
+
+Print Assumptions C04_refuted_before_fix_impl_features.
 Print Assumptions C04_accept_deterministic.
 Print Assumptions C04_validate_no_panic.
 Print Assumptions C04_verdict_deterministic.
+Print Assumptions C04_validate_memo_no_panic.
+Print Assumptions C04_memo_accepts_what_plain_accepts_partial.
 Print Assumptions C04_type_info_total.
 Print Assumptions C04_accepted_iff_rules_silent.
 Print Assumptions C04_all_rules_silent.
@@ -237,6 +274,8 @@ Print Assumptions C04_validate_verdict_partial.
 Print Assumptions C04_accepted_fields_hold.
 Print Assumptions C04_accepted_arguments_hold.
 Print Assumptions C04_fields_pass_errors.
+Print Assumptions C04_accepted_spread_targets_defined.
+Print Assumptions C04_spreads_pass_errors.
 Print Assumptions C04_violation_rejected_partial.
 Print Assumptions C04_refuted_before_fix_descend.
 Print Assumptions C04_refuted_before_fix_revisit.
